@@ -599,14 +599,17 @@ def rule_V(ctx, rid='C09.V', only=None):
 
     VERBOSE = sorted({v.value for k, v in mod.consts.items() if k.startswith('MODE_VERBOSE') and isinstance(v, ast.Constant)})
 
-    def decode(sizes, emis, trans, logmode, label, family, reuse=None, stationary=False, switch=None, obsmode=None, verbose=quiet, aborted_first=False):
+    def decode(sizes, emis, trans, logmode, label, family, reuse=None, stationary=False, switch=None, obsmode=None, verbose=quiet, aborted_first=False, fixed_labels=False, nan_at=()):
         """emis[k][i], trans[k][(i, j)] are COSTS (-log likelihood); states of epoch k are named 10*k + i.
         reuse = (hmm, track) of an earlier decoding: the same objects are given the new model through the setters;
         switch = the value given as the log switch (default: the bool logmode); obsmode = (mode name, observed feature names)"""
         n_models[0] += 1
         T_ = len(sizes)
         states = [[10 * k + i for i in range(sizes[k])] for k in range(T_)]
-        ys = ['y%d' % k for k in range(T_)]
+        if fixed_labels:
+            # a fixed set of labels: the state function hands out the very same list object at every epoch (the tables still differ from epoch to epoch)
+            states = [list(range(sizes[0]))] * T_
+        ys = [(float('nan') if k in nan_at else 'y%d' % k) for k in range(T_)]
         feats, obsarg, modeval = None, 'y', None
         if obsmode is not None:
             mname, names_ = obsmode
@@ -634,7 +637,7 @@ def rule_V(ctx, rid='C09.V', only=None):
         calls = {'Q': [], 'P': []}
 
         def S(track, k):
-            return list(states[k])
+            return states[k] if fixed_labels else list(states[k])
 
         def Q(s1, s2, k, track):
             calls['Q'].append(k)
@@ -643,7 +646,7 @@ def rule_V(ctx, rid='C09.V', only=None):
             return lik(trans[k][(s1 % 10, s2 % 10)])
 
         def P(s, y, k, track):
-            if not (isinstance(k, int) and 0 <= k < T_ and s in states[k] and y == ys[k]):
+            if not (isinstance(k, int) and 0 <= k < T_ and s in states[k] and (y == ys[k] or (isinstance(y, float) and y != y and k in nan_at))):
                 raise orders.Raised('ModelError', 'observation model asked for P(%r, %r, k=%r): state and observation must be those of epoch k' % (s, y, k))
             return lik(emis[k][s % 10])
         try:
@@ -785,9 +788,23 @@ def rule_V(ctx, rid='C09.V', only=None):
             emis = [[0.1 if i == target[k] else 2.3 for i in range(2)] for k in range(3)]
             trans = [{(i, j): (0.1 if (i, j) == (target[k], target[k + 1]) else 2.3) for i in range(2) for j in range(2)} for k in range(2)]
             decode((2, 2, 2), emis, trans, False, 'unique optimum %r, observations %r in mode %s' % (list(target), names_, mname), 'observation modes', obsmode=(mname, names_))
+    # (g) a fixed label set (the same list object of states at every epoch) with tables that differ from epoch to epoch; an observation that
+    #     is NaN (a gap in the observed feature) is an observation like any other: the observation model decides what it says about the states
+    for logmode in ((False, True) if only is None else ()):
+        for sizes in ((2, 2, 2), (3, 3, 3), (2, 2, 2, 2)):
+            T_ = len(sizes)
+            for target in list(itertools.product(*[range(s_) for s_ in sizes]))[::2]:
+                emis = [[0.1 if i == target[k] else 2.3 for i in range(sizes[k])] for k in range(T_)]
+                trans = [{(i, j): (0.1 if (i, j) == (target[k], target[k + 1]) else 2.3) for i in range(sizes[k]) for j in range(sizes[k + 1])} for k in range(T_ - 1)]
+                decode(sizes, emis, trans, logmode, 'unique optimum %r, the state function returns the same list object at every epoch' % list(target), 'fixed labels', fixed_labels=True)
+        for nan_at in ((1,), (0, 2), (0, 1, 2)):
+            for target in ((0, 1, 1), (1, 0, 1), (1, 1, 0)):
+                emis = [[0.1 if i == target[k] else 2.3 for i in range(2)] for k in range(3)]
+                trans = [{(i, j): 0.4 + 0.1 * i + 0.05 * j for i in range(2) for j in range(2)} for k in range(2)]
+                decode((2, 2, 2), emis, trans, logmode, 'optimum %r decided by the observation likelihoods, observation NaN at epochs %r' % (list(target), list(nan_at)), 'fixed labels', nan_at=nan_at)
     for (family, key), (desc, wit) in sorted(found.items()):
         ctx.violation(rid, f, desc, wit, node=f.node, key='%s:%s' % (family, key))
-    for family in (('orderings', 'unique', 'zeros and ones', 'reuse', 'verbosity', 'switch kinds', 'observation modes') if only is None else only):
+    for family in (('orderings', 'unique', 'fixed labels', 'zeros and ones', 'reuse', 'verbosity', 'switch kinds', 'observation modes') if only is None else only):
         if not any(f_ == family for f_, _ in found):
             ctx.ok(rid, f, 'decoded sequence = an optimum of the enumeration, plain and log mode (%s)' % family, node=f.node)
     ctx.extra[rid + ' models'] = n_models[0]
